@@ -756,3 +756,24 @@ func sizeMultiple(v ssa.Value) (int64, bool) {
 	}
 	return 0, false
 }
+
+// unspill: the value a return hands back as result i. In a function with defers go/ssa spills the results into cells
+// (`*r = v; rundefers; t = *r; return t`): the store in the return's own block is looked through.
+func unspill(ret *ssa.Return, i int) ssa.Value {
+	v := ret.Results[i]
+	u, ok := v.(*ssa.UnOp)
+	if !ok || u.Op != token.MUL {
+		return v
+	}
+	al, ok := u.X.(*ssa.Alloc)
+	if !ok {
+		return v
+	}
+	blk := ret.Block()
+	for j := len(blk.Instrs) - 1; j >= 0; j-- {
+		if st, ok := blk.Instrs[j].(*ssa.Store); ok && st.Addr == ssa.Value(al) {
+			return st.Val
+		}
+	}
+	return v
+}
